@@ -16,6 +16,7 @@
     label of the lifecycle model: that part of C12's quantifier is covered by
     the run-fails-to-start scenarios and the oracle only. *)
 From NL Require Import Life.Model Life.LockInv Life.FsmInv Life.Hist Life.Protocol Life.Registry.
+From NL Require Relay.Model Relay.Proofs.
 Open Scope Z_scope.
 
 (** per run: initialise-run, start-run, end-run while the state is still
@@ -111,6 +112,25 @@ Example C12_registration_example :
                     Delivered [(6, 4)%nat]; Refused; Done; Delivered [(5, 9)%nat; (6, 9)%nat]].
 Proof. vm_compute. repeat split; reflexivity. Qed.
 
+(** "... then the run's in-process events, then end-run": the relay of the child's events is
+    not part of the lifecycle model; it is the subject of the relay model Relay/Model.v (C10), whose
+    plugin log has the start-run call, every delivery (call and completion of the event hooks) and the
+    end-run call.  Restated here so that every clause of C12 has its theorem in this file: for every
+    event script of the child, every interleaving of the child, the queue, the monitor and slow hooks,
+    and an early timeout of the final drain, every delivery lies after the start-run call and before the
+    end-run call; calls and completions alternate (one event at a time); once end-run has been called the
+    log never changes.  (Assumption `boot = true`, as in C10: the child emits nothing before start-run.) *)
+Theorem C12_events_between_start_and_end : forall script ls,
+  NL.Relay.Model.bracketed (NL.Relay.Model.log (NL.Relay.Model.run true script ls)) = true /\
+  NL.Relay.Model.alternating None (NL.Relay.Model.log (NL.Relay.Model.run true script ls)) = true /\
+  (forall l, NL.Relay.Model.main (NL.Relay.Model.run true script ls) = NL.Relay.Model.PEndRun ->
+     NL.Relay.Model.log (NL.Relay.Model.run true script (ls ++ [l])) = NL.Relay.Model.log (NL.Relay.Model.run true script ls)).
+Proof.
+  intros script ls. split; [exact (NL.Relay.Proofs.bracketed_always script ls)|].
+  split; [exact (NL.Relay.Proofs.hooks_never_overlap true script ls)|].
+  intros l H. exact (NL.Relay.Proofs.nothing_after_end true script ls l H).
+Qed.
+
 Print Assumptions C12_order.
 Print Assumptions C12_run_arg_window.
 Print Assumptions C12_complete.
@@ -119,3 +139,4 @@ Print Assumptions C12_example_nonvacuous.
 Print Assumptions C12_example_automaton_rejects.
 Print Assumptions C12_registration.
 Print Assumptions C12_registration_example.
+Print Assumptions C12_events_between_start_and_end.
